@@ -352,9 +352,9 @@ func runTeardownSuite(rep *Report, tier string, seed int64, prop string) {
 	}
 	if prop == "C15" {
 		if tier == "thorough" {
-			c15CallsStartingAtTeardown(rep, prop, 6000, 24, 60*time.Second)
+			c15CallsStartingAtTeardown(rep, prop, 6000, 24, 60*time.Second, true)
 		} else {
-			c15CallsStartingAtTeardown(rep, prop, 1500, 24, 8*time.Second)
+			c15CallsStartingAtTeardown(rep, prop, 1500, 24, 8*time.Second, true)
 		}
 		for _, api := range apis() {
 			c15NestedClosureTeardown(rep, prop, api)
